@@ -6,6 +6,7 @@ import (
 	"math/rand"
 	"os"
 	"regexp"
+	"strconv"
 	"strings"
 
 	"verif/proto"
@@ -123,6 +124,51 @@ func c20Run(x *Ctx, prop string) {
 		cases = append(cases, &proto.Case{ID: fmt.Sprintf("%s-%d", strings.ToLower(prop), b), Op: "c20.parse", Args: args, TimeoutMs: 30000})
 	}
 	x.RunAll(pool, cases)
+
+	// native coverage-guided fuzzing of the same entry points, seeded with generated inputs
+	target := "FuzzParseBlock"
+	if prop == "C37" {
+		target = "FuzzHighlight"
+	}
+	r := x.Rng("fuzzseeds", 0)
+	var seeds []string
+	for i := 0; i < 400; i++ {
+		seeds = append(seeds, strings.ReplaceAll(c20Input(r), "\x1b", ""))
+	}
+	execs := x.Pick(300000, 30000000)
+	if v, err := strconv.Atoi(os.Getenv("VERIF_FUZZ_EXECS")); err == nil && v > 0 {
+		execs = v // corpus maintenance (tools/update_corpus.sh)
+	}
+	o, err := x.nativeFuzz(target, execs, seeds)
+	switch {
+	case err != nil:
+		x.broken(err.Error())
+	case o.TimedOut:
+		x.Inconclusive("native fuzzing watchdog expired after " + fmt.Sprint(o.Execs) + " executions")
+	default:
+		x.Eval(int(o.Execs))
+		x.Count("native_fuzz_executions", o.Execs)
+		x.Count("native_fuzz_inputs_that_reached_new_coverage", o.NewInputs)
+		if o.Failed {
+			if o.Input == "" {
+				x.Viol("fuzz:failure-without-input", "the native fuzzer reported a failure: "+o.Output, nil, o.Output, "pass")
+				break
+			}
+			before := len(x.viols)
+			args, _ := json.Marshal([]string{o.Input})
+			single := &proto.Case{ID: strings.ToLower(prop) + "-fuzz", Op: "c20.parse", Args: args, TimeoutMs: 30000}
+			pool.Run([]*proto.Case{single}, func(sc *proto.Case, sr *proto.Result) {
+				if sr.TimedOut {
+					x.Viol("parse:no-termination", fmt.Sprintf("parsing %q did not terminate within 30 s (found by the native fuzzer)", o.Input), sc, trunc(sr.Dump, 3000), "terminates")
+					return
+				}
+				c20Check(prop)(x, sc, sr)
+			})
+			if len(x.viols) == before {
+				x.Viol("fuzz:failure-not-reproduced-by-worker", fmt.Sprintf("the native fuzzer failed on %q: %s", o.Input, trunc(o.Output, 1500)), single, o.Output, "pass")
+			}
+		}
+	}
 }
 
 func c20Check(prop string) func(x *Ctx, c *proto.Case, r *proto.Result) {
@@ -223,18 +269,18 @@ func init() {
 		ID:    "C20",
 		Level: "exploration",
 		Rule: "PRNG rune strings up to 300 runes: token soup over {}[]()$@%'\"\\|&;?=<>~#/ newlines, operators, keywords, sigils and non-ASCII, and 1-4 random edits (delete / insert / replace / truncate / duplicate) of valid programs produced by the other monitors' generators (chains, control flow, expressions, %[] / %{} literals, quoted strings, function signatures); each is given to lang.ParseBlock, the expression and statement parsers (no execution) and the highlighting / autocomplete tokenizer at two cursor positions; " +
-			"oracle: every call returns (a tree or a syntax error) — a recovered panic or a call that does not return within the watchdog is a violation; non-trivial = the input contains a bracket, quote, sigil or operator; distinct by input text",
-		Assumptions: []string{"termination is decided by a per-batch watchdog; a batch that expires is re-run input by input with a 10 s limit each", "native coverage-guided fuzzing is not part of the quick tier (see DESIGN.md)"},
-		Technique:   "runtime monitoring: generated and mutated inputs through the real parsers with panic capture and a termination watchdog",
+			"then Go's native coverage-guided fuzzer (harness/fuzz FuzzParseBlock, exact-capacity rune slices) runs the same four entry points for a fixed number of executions from 400 generated seeds plus the committed corpus; oracle: every call returns (a tree or a syntax error) — a recovered panic or a call that does not return within the watchdog is a violation; non-trivial = the input contains a bracket, quote, sigil or operator; distinct by input text",
+		Assumptions: []string{"termination is decided by a per-batch watchdog; a batch that expires is re-run input by input with a 10 s limit each", "the native fuzzing phase is bounded by an execution count, not by time"},
+		Technique:   "runtime monitoring: generated, mutated and coverage-guided (go test -fuzz) inputs through the real parsers with panic capture and a termination watchdog",
 		Run:         func(x *Ctx) { c20Run(x, "C20") },
 		Check:       c20Check("C20"),
 	})
 	register(&Property{
 		ID:    "C37",
 		Level: "exploration",
-		Rule: "the same generator as C20 (token soup and mutated valid programs, valid Unicode, no ESC character) through parser.Parse(runes, 0); oracle: the highlighted string with every `ESC [ ... m` sequence removed equals the input rune for rune; non-trivial = the input contains a bracket, quote, sigil or operator; distinct by input text",
+		Rule: "the same generator as C20 (token soup and mutated valid programs, valid Unicode, no ESC character) through parser.Parse(runes, 0); then Go's native coverage-guided fuzzer (harness/fuzz FuzzHighlight) for a fixed number of executions; oracle: the highlighted string with every `ESC [ ... m` sequence removed equals the input rune for rune; non-trivial = the input contains a bracket, quote, sigil or operator; distinct by input text",
 		Assumptions: []string{"inputs contain no ESC (0x1B) character", "inputs on which the tokenizer panics are counted and left to C20"},
-		Technique:   "runtime monitoring: inverse check (strip colour codes) over generated and mutated command lines",
+		Technique:   "runtime monitoring: inverse check (strip colour codes) over generated, mutated and coverage-guided (go test -fuzz) command lines",
 		Run:         func(x *Ctx) { c20Run(x, "C37") },
 		Check:       c20Check("C37"),
 	})
